@@ -263,7 +263,66 @@ def r5_retry(ctx, cname, thorough):
         where=where(g))
 
 
+def r6_async_generator_cleanup(ctx):
+    """When the listener restarts after an error it abandons the suspended
+    `_listen()` async generator; Python finalises an abandoned async
+    generator *later*, from the event loop.  An awaited clean-up that spans
+    a `yield` (finally / except / async-with exit) and acts on an object
+    shared with the next generator instance (an attribute of self, e.g. the
+    one pubsub connection) therefore runs after the restart has
+    re-subscribed and undoes it."""
+    m = ctx.model
+    base = m.cls('AsyncPubSubManager')
+    n = 0
+    for c in [base] + m.subclasses(base):
+        for f in c.methods.values():
+            if not f.is_async:
+                continue
+            has_yield = any(isinstance(x, (ast.Yield, ast.YieldFrom))
+                            for x in walk_own(f.node))
+            if not has_yield:
+                continue
+            n += 1
+            bad = None
+            for t in walk_own(f.node):
+                spans = lambda blk: any(isinstance(x, (ast.Yield,
+                                                       ast.YieldFrom))
+                                        for s_ in blk for x in ast.walk(s_))
+                if isinstance(t, ast.Try) and spans(t.body):
+                    cleanup = list(t.finalbody)
+                    for h in t.handlers:
+                        if h.type is None or 'BaseException' in U(h.type) \
+                                or 'GeneratorExit' in U(h.type):
+                            cleanup += h.body
+                    for s_ in cleanup:
+                        for x in ast.walk(s_):
+                            if isinstance(x, ast.Await) and \
+                                    isinstance(x.value, ast.Call) and \
+                                    U(x.value.func).startswith('self.'):
+                                bad = (x, U(x.value.func))
+                if isinstance(t, ast.AsyncWith) and spans(t.body):
+                    for it in t.items:
+                        if U(it.context_expr).startswith('self.') and \
+                                '(' not in U(it.context_expr).split('.')[1]:
+                            bad = (t, U(it.context_expr))
+            ctx.check(bad is None, '%s.%s' % (c.name, f.name),
+                      'no awaited clean-up on shared state spans a yield '
+                      'of this async generator', key='asyncgen-cleanup',
+                      reason='the async generator awaits %s in a clean-up '
+                      'clause around its yield: when the listener abandons '
+                      'the generator after an error, this runs later, after '
+                      'the restart re-subscribed, and undoes the new '
+                      'subscription' % (bad[1] if bad else ''),
+                      where=where(f, bad[0] if bad else None))
+    if n < 3:
+        raise AnalysisError('C15.R6 found only %d async listen generators'
+                            % n)
+
+
 def run(ctx):
+    ctx.rule('C15.R6', 'async listen generators: no awaited clean-up on '
+             'shared state around a yield', floor=3)
+    r6_async_generator_cleanup(ctx)
     ctx.rule('C15.R1', 'containment: nothing raised in the per-message body '
              'leaves the listener', floor=4)
     for fam in SA:
